@@ -287,7 +287,19 @@ def write_feature_problems(rd, entries):
         with open(p, 'w') as fh:
             fh.write(t)
         return p
-    return gen_features.as_problems(entries, write)
+    # every part read after a solve() ends with a constraint on a fresh variable; the trace specification checks it on the
+    # solutions reported afterwards (sessions with rejected scripts excepted: a rejected part is not part of the problem)
+    ents = []
+    for name, parts, ok in entries:
+        if len(parts) > 1 and not name.startswith('fs_'):
+            parts = list(parts)
+            for k in range(1, len(parts)):
+                parts[k] = parts[k] + 'real snt%d;\nsnt%d >= 7.0;\n' % (k, k)
+                EXPECT.setdefault(name, []).append(json.dumps(
+                    {'e': 'expect', 'name': name, 'var': 'snt%d' % k, 'kind': 'sentinel', 'dom0': [], 'allowed': [], 'sat': 1, 'value': [7, 1],
+                     'bvalue': 0}, separators=(',', ':')))
+        ents.append((name, parts, ok))
+    return gen_features.as_problems(ents, write)
 
 
 def feature_problems(rd, fams, seed, tier):
@@ -308,4 +320,6 @@ def feature_problems(rd, fams, seed, tier):
             ent += gen_features.tp_family(seed, 60 * k)
         elif fam == 'causal':
             ent += gen_features.causal_cross_family(seed, 50 * k)
+        elif fam == 'incremental':
+            ent += gen_features.incremental_family()
     return write_feature_problems(rd, ent), {n: s_ for n, p, s_ in ent}
